@@ -72,6 +72,35 @@ Fixpoint redistribute (fmax : Z * Z) (nps : list dsn) (ps far : list dsn) : list
 Definition split_last {A} (l : list A) : option (list A * A) :=
   match rev l with [] => None | x :: r => Some (rev r, x) end.
 
+(* the loop `while (size(point_set) != 0)` of batch_insert; `rec` is batch_insert itself (with one unit of fuel
+   less); n bounds the number of iterations (every iteration consumes at least the point it picks) *)
+Definition bi_rec := Z -> Z -> Z -> list dsn -> list dsn -> option (ctree * list dsn * list dsn).
+
+Fixpoint bi_loop (rec : bi_rec) (p max_scale top_scale next_scale : Z) (fmax : Z * Z) (n : nat)
+                 (ps far cons : list dsn) (children : list ctree) {struct n}
+  : option (ctree * list dsn * list dsn) :=
+  match split_last ps with
+  | None =>
+      Some (CN p (max_set cons) 0 (Z.to_nat (top_scale - max_scale)) children, far, cons)
+  | Some (ps', x) =>
+      match n with
+      | O => None
+      | S n' =>
+          let np := fst x in
+          let nd := last_d x in
+          let cons' := cons ++ [x] in
+          let '(ps2, moved1) := dist_split np fmax ps' in
+          let '(far2, moved2) := dist_split np fmax far in
+          match rec np next_scale top_scale (moved1 ++ moved2) [] with
+          | None => None
+          | Some (nchild, nps, ncons) =>
+              let '(ps3, far3) := redistribute fmax nps ps2 far2 in
+              bi_loop rec p max_scale top_scale next_scale fmax n' ps3 far3 (cons' ++ map pop_d ncons)
+                      (children ++ [set_pard nd nchild])
+          end
+      end
+  end.
+
 Fixpoint batch_insert (fuel : nat) (p : Z) (max_scale top_scale : Z) (ps cons : list dsn)
   : option (ctree * list dsn * list dsn) :=
   match fuel with
@@ -97,29 +126,8 @@ Fixpoint batch_insert (fuel : nat) (p : Z) (max_scale top_scale : Z) (ps cons : 
                 | [] => Some (child, far, cons1)
                 | _ =>
                     (* while (size(point_set) != 0) *)
-                    (fix loop (n : nat) (ps far cons : list dsn) (children : list ctree)
-                       : option (ctree * list dsn * list dsn) :=
-                       match split_last ps with
-                       | None =>
-                           Some (CN p (max_set cons) 0 (Z.to_nat (top_scale - max_scale)) children, far, cons)
-                       | Some (ps', x) =>
-                           match n with
-                           | O => None
-                           | S n' =>
-                               let np := fst x in
-                               let nd := last_d x in
-                               let cons' := cons ++ [x] in
-                               let '(ps2, moved1) := dist_split np fmax ps' in
-                               let '(far2, moved2) := dist_split np fmax far in
-                               match batch_insert f np next_scale top_scale (moved1 ++ moved2) [] with
-                               | None => None
-                               | Some (nchild, nps, ncons) =>
-                                   let '(ps3, far3) := redistribute fmax nps ps2 far2 in
-                                   loop n' ps3 far3 (cons' ++ map pop_d ncons)
-                                        (children ++ [set_pard nd nchild])
-                               end
-                           end
-                       end) (S (length ps1 + length far)) ps1 far cons1 [child]
+                    bi_loop (batch_insert f) p max_scale top_scale next_scale fmax
+                            (S (length ps1 + length far)) ps1 far cons1 [child]
                 end
             end
       end
